@@ -102,6 +102,12 @@ def shards(tier, seed):
         out.append({"part": "multi", "start": start, "acks": [0, 5], "seed": seed, "n": 400 if tier == "quick" else 4000})
     for k in range(2 if tier == "quick" else 8):
         out.append({"part": "after_failure", "seed": seed * 10 + k, "n": 40 if tier == "quick" else 300})
+    # DEBUG logging (several times the cost per frame) on the small shards and on short walks of its own
+    for d in out:
+        d["debuglog"] = d["part"] in ("multi", "after_failure") and (d.get("start", d["seed"]) % 2 == 1)
+    for w in range(2):
+        out.append({"part": "walk", "n": 8000 if tier == "quick" else 40000, "seed": seed * 1000 + 500 + w, "pending": w == 1, "debuglog": True})
+    out.append({"part": "exh", "start": 3, "depth": 2, "acks": [0, 5], "first": None, "seed": seed, "debuglog": True})
     return out
 
 
